@@ -27,4 +27,53 @@ def _found_index(rec):
     return {"violated": bool(msgs), "observed": msgs, "call": "ToArgs(%r, %r).found_index(%d)" % (table, found, idx)}
 
 
-REPLAYERS = {"blocks.ToArgs.found_index": _found_index}
+def _flag_word(rec):
+    from code_data._flags_data import from_flags_data, to_flags_data
+    w = (rec.get("inputs") or {}).get("flag_word")
+    if w is None:
+        return {"violated": None, "note": "no flag word in the counter-model"}
+    word = int(w, 16) if isinstance(w, str) else int(w)
+    try:
+        fd = to_flags_data(word)
+    except Exception as e:
+        return {"violated": False, "observed": ["to_flags_data(%#x) raised %s" % (word, type(e).__name__)]}
+    back = from_flags_data(set(fd))
+    msgs = [] if back == word else ["from_flags_data(to_flags_data(%#x)) == %#x: bits %#x silently dropped" % (word, back, back ^ word)]
+    return {"violated": bool(msgs), "observed": msgs, "call": "to_flags_data(%#x)" % word}
+
+
+def _instrsize(rec):
+    import code_data._blocks as B
+    a = (rec.get("inputs") or {}).get("arg")
+    if a is None:
+        return {"violated": None, "note": "no operand in the counter-model"}
+    n = B._instrsize(int(a))
+    u = int(a) & 0xFFFFFFFF
+    want = 1 if u <= 0xFF else 2 if u <= 0xFFFF else 3 if u <= 0xFFFFFF else 4
+    return {"violated": n != want, "observed": ["_instrsize(%d) == %r, CPython's instrsize gives %d" % (int(a), n, want)], "call": "_instrsize(%d)" % int(a)}
+
+
+def _args_from_input(rec):
+    import inspect
+    import types
+    from code_data import CodeData
+    inp = rec.get("inputs") or {}
+    argc, pos, kw = int(inp.get("argcount", 0)), int(inp.get("posonlyargcount", 0)), int(inp.get("kwonlyargcount", 0))
+    h = rec["obligation"]
+    va, vk = "VARARGS=1" in h, "VARKEYWORDS=1" in h
+    import sys
+    if pos and sys.version_info < (3, 8):
+        pos = 0
+    names = ["p%d" % i for i in range(pos)] + ["a%d" % i for i in range(argc - pos)]
+    parts = names[:pos] + (["/"] if pos else []) + names[pos:]
+    parts += ["*rest"] if va else (["*"] if kw else [])
+    parts += ["k%d" % i for i in range(kw)] + (["**kwargs"] if vk else [])
+    src = "def f(%s): pass" % ", ".join(parts)
+    code = compile(src, "<replay>", "exec", dont_inherit=True).co_consts[0]
+    f = types.FunctionType(code, {})
+    want = [(p.name, p.kind.name) for p in inspect.signature(f).parameters.values()]
+    got = [(n, k.name) for n, k in CodeData.from_code(code).type.args.parameters.items()]
+    return {"violated": got != want, "observed": ["%s: decoded %r, inspect.signature %r" % (src, got, want)], "call": src}
+
+
+REPLAYERS = {"blocks.ToArgs.found_index": _found_index, "flags.": _flag_word, "blocks._instrsize": _instrsize, "args.args_from_input": _args_from_input}
